@@ -256,3 +256,74 @@ Lemma quad_rf2_ok : rf2_ok 4 gen_quad_rfacets.
 Proof.
   intros a Ha. destruct a as [|[|[|[|a]]]]; simpl in Ha; try lia; eexists _, _; (split; [reflexivity|]); repeat split; lia.
 Qed.
+
+(* ------------------------------------------------------------------ a uniform step keeps "cells with pairwise distinct, existing vertices" *)
+Require Import Base.C11_Unique Model.C11_Topo Proofs.C11_TopoProofs Model.C12_Global Proofs.C12_InvProofs.
+
+Definition tri_tabs (t : list (list nat)) := c11_tables t gen_tri_rfacets.
+Definition quad_tabs (t : list (list nat)) := c11_tables t gen_quad_rfacets.
+Definition tet_tabs (t : list (list nat)) := c11_tables3 t gen_tet_rfacets gen_tet_redges.
+Definition hex_tabs (t : list (list nat)) := c11_tables3 t gen_hex_rfacets gen_hex_redges.
+
+Lemma tri_step_ok p t : cells_ok 3 (length p) t ->
+  cells_ok 3 (length (fst (uniform_block tri_spec 2 p (tri_tabs t)))) (snd (uniform_block tri_spec 2 p (tri_tabs t))).
+Proof.
+  intros H. apply (block_step_ok tri_spec 2 p t gen_tri_rfacets [] 3 (tri_tabs t) 0 (length (entities true t gen_tri_rfacets)) 0);
+    try reflexivity; try exact H; try apply tables_of_c11.
+  - intros U. vm_compute in U. discriminate.
+  - intros _. split; [unfold offs_of; simpl; unfold gen_tri_offF; lia | reflexivity].
+  - intros U. vm_compute in U. discriminate.
+  - unfold uniform_block. cbn [fst]. rewrite refine_p_length. cbn. lia.
+Qed.
+
+Lemma quad_step_ok p t : cells_ok 4 (length p) t ->
+  cells_ok 4 (length (fst (uniform_block quad_spec 2 p (quad_tabs t)))) (snd (uniform_block quad_spec 2 p (quad_tabs t))).
+Proof.
+  intros H. destruct t as [|c0 t']; [unfold uniform_block; cbn [snd]; simpl; rewrite refine_t_nil; constructor|].
+  set (t := c0 :: t') in *.
+  pose proof (c11_tab_max t gen_quad_rfacets ltac:(simpl; lia) ltac:(simpl; lia)) as Hmax.
+  apply (block_step_ok quad_spec 2 p t gen_quad_rfacets [] 4 (quad_tabs t) 0 (length (entities true t gen_quad_rfacets)) (length t));
+    try reflexivity; try exact H; try apply tables_of_c11.
+  - intros U. vm_compute in U. discriminate.
+  - intros _. split; [unfold offs_of; simpl; unfold gen_quad_offF; lia | reflexivity].
+  - intros _. split; [|reflexivity]. unfold offs_of, quad_spec, mk_spec. cbn [sp_off offC]. unfold gen_quad_offC.
+    change (tb_t2f (quad_tabs t)) with (map (fun k => map (fun a => nth k (nth a (mapping t gen_quad_rfacets) []) 0) (seq 0 (length gen_quad_rfacets))) (seq 0 (length t))).
+    lia.
+  - unfold uniform_block. cbn [fst]. rewrite refine_p_length. cbn. lia.
+Qed.
+
+Lemma tet_step_ok p t : cells_ok 4 (length p) t ->
+  cells_ok 4 (length (fst (tet_step p (tet_tabs t)))) (snd (tet_step p (tet_tabs t))).
+Proof.
+  intros H. unfold tet_step.
+  apply (tet_layout_step_ok tet_spec gen_tet_diags gen_tet_comps gen_tet_classes p t gen_tet_rfacets gen_tet_redges 4 (tet_tabs t)
+                            (length (entities true t gen_tet_redges))); try reflexivity; try exact H; try apply tables_of_c11_3.
+  unfold uniform_tet. cbn [fst]. rewrite refine_p_length. cbn. lia.
+Qed.
+
+Lemma hex_step_ok p t : cells_ok 8 (length p) t ->
+  cells_ok 8 (length (fst (uniform_block hex_spec 3 p (hex_tabs t)))) (snd (uniform_block hex_spec 3 p (hex_tabs t))).
+Proof.
+  intros H. destruct t as [|c0 t']; [unfold uniform_block; cbn [snd]; simpl; rewrite refine_t_nil; constructor|].
+  set (t := c0 :: t') in *.
+  pose proof (c11_tab_max t gen_hex_rfacets ltac:(simpl; lia) ltac:(simpl; lia)) as HmaxF.
+  pose proof (c11_tab_max t gen_hex_redges ltac:(simpl; lia) ltac:(simpl; lia)) as HmaxE.
+  apply (block_step_ok hex_spec 3 p t gen_hex_rfacets gen_hex_redges 8 (hex_tabs t)
+                       (length (entities true t gen_hex_redges)) (length (entities true t gen_hex_rfacets)) (length t));
+    try reflexivity; try exact H; try apply tables_of_c11_3.
+  - intros _. split; [unfold offs_of; simpl; unfold gen_hex_offE; lia | reflexivity].
+  - intros _. split; [|reflexivity]. unfold offs_of, hex_spec, mk_spec. cbn [sp_off offF]. unfold gen_hex_offF.
+    change (tb_t2e (hex_tabs t)) with (map (fun k => map (fun a => nth k (nth a (mapping t gen_hex_redges) []) 0) (seq 0 (length gen_hex_redges))) (seq 0 (length t))).
+    lia.
+  - intros _. split; [|reflexivity]. unfold offs_of, hex_spec, mk_spec. cbn [sp_off offC]. unfold gen_hex_offC.
+    change (tb_t2e (hex_tabs t)) with (map (fun k => map (fun a => nth k (nth a (mapping t gen_hex_redges) []) 0) (seq 0 (length gen_hex_redges))) (seq 0 (length t))).
+    change (tb_t2f (hex_tabs t)) with (map (fun k => map (fun a => nth k (nth a (mapping t gen_hex_rfacets) []) 0) (seq 0 (length gen_hex_rfacets))) (seq 0 (length t))).
+    lia.
+  - unfold uniform_block. cbn [fst]. rewrite refine_p_length. cbn. lia.
+Qed.
+
+(* ------------------------------------------------------------------ tiling checks in the form used by the explicit principle *)
+Lemma tri_uniform_tiles : tri_tiles_ok tri_W gen_tri_templates = true.
+Proof. vm_compute. reflexivity. Qed.
+Lemma tet_uniform_tiles : forallb (fun c => tet_tiles_ok tet_W (tet_family c)) [0; 1; 2] = true.
+Proof. vm_compute. reflexivity. Qed.
